@@ -27,7 +27,7 @@ func init() {
 		Run: runC17,
 		Explanation: "Static ownership / lockset rules over the codecs: (no-readahead-loss) a json.Decoder built on a receiver-held stream must either be kept in the receiver or hand its Buffered() remainder to a receiver field that the next decoder reads first — a per-call decoder that is dropped loses every message that arrived coalesced with the previous one; " +
 			"(one-encode) the stream codec writes a message with exactly one Encode (one Write) of that message; (single-writer) in the gorilla codec every write on the connection holds muWrite and every read holds muRead; " +
-			"(framing) the gobwas codec advances to the next frame before each read and flushes after each successful write; (shipped-codec) the binaries import the gorilla codec only.",
+			"(framing) the gobwas codec advances to the next frame before each read and flushes after each successful write; (shipped-codec) the binaries import the gorilla codec only. Round 2: (http-once) the HTTP stub builds a constant POST and sets no replay-enabling or non-constant header; (framing) a successful Discard() on the same reader precedes every NextFrame.",
 		NotDecided: []string{"not decided: exactly-once/in-order delivery over arbitrary chunkings (needs execution); interleaving of concurrent writers on the gobwas and plain stream codecs, which the binaries do not use for concurrent writers"},
 	}
 }
